@@ -604,4 +604,66 @@ struct Gen<nop::Variant<A, B>> {
 
 }  // namespace vt
 
+// =======================================================================================
+// Table container (docs/format.md "Table Container"): TAB, HASH (UINT64), N (UINT64), then N
+// entries ID (UINT64), SIZE (UINT64), SIZE bytes = value bytes + padding.  Helpers for the
+// per-table schemas written out in units/table.cpp.
+#ifndef VERIF_SPEC_FORMAT_SPEC_TABLE_
+#define VERIF_SPEC_FORMAT_SPEC_TABLE_
+namespace vt {
+namespace fmt {
+constexpr std::size_t kEntryCap = 24;  // longest entry value of any INST table
+// encoder: one entry (nothing at all when the entry is empty); `extra` padding bytes of value 0
+template <typename E>
+inline void enc_entry(Out& o, std::uint64_t id, const E& entry, std::uint64_t extra) {
+  if (entry.empty()) return;
+  Out tmp;
+  init(tmp);
+  Fmt<typename std::decay<decltype(entry.get())>::type>::enc(tmp, entry.get());
+  enc_uint(o, id);
+  enc_uint(o, tmp.n + extra);
+  for (std::size_t i = 0; i < kEntryCap; i++)
+    if (i < tmp.n) put(o, tmp.b[i]);
+  for (std::size_t i = 0; i < 4; i++)
+    if (i < extra) put(o, 0);
+}
+// decoder: the SIZE-framed value of a recognised active entry (the id has been read)
+template <typename T, typename E>
+inline bool dec_entry(In& in, E* entry) {
+  if (!entry->empty()) return fail(in, nop::ErrorStatus::DuplicateTableEntry);
+  std::uint64_t size;
+  if (!dec_uint(in, 8, &size)) return false;
+  const std::uint64_t avail = in.n - in.pos;
+  In sub;
+  init(sub, in.b + in.pos, size < avail ? size : avail);
+  T t;
+  Gen<T>::make(&t);
+  if (!Fmt<T>::dec(sub, &t)) {
+    if (in.err == 0) in.err = sub.err;
+    return false;
+  }
+  if (size > avail) return fail(in, nop::ErrorStatus::ReadLimitReached);  // padding bytes missing
+  in.pos += size;
+  *entry = t;
+  return true;
+}
+// decoder: skip the SIZE-framed value of an unknown or deleted entry
+inline bool skip_entry(In& in) {
+  std::uint64_t size;
+  if (!dec_uint(in, 8, &size)) return false;
+  if (size > in.n - in.pos) return fail(in, nop::ErrorStatus::ReadLimitReached);
+  in.pos += size;
+  return true;
+}
+inline bool dec_table_header(In& in, std::uint64_t hash, std::uint64_t* count) {
+  if (!expect_prefix(in, FMT_TAB)) return false;
+  std::uint64_t h;
+  if (!dec_uint(in, 8, &h)) return false;
+  if (h != hash) return fail(in, nop::ErrorStatus::InvalidTableHash);
+  return dec_uint(in, 8, count);
+}
+}  // namespace fmt
+}  // namespace vt
+#endif
+
 #endif  // VERIF_SPEC_FORMAT_SPEC_H_
